@@ -123,7 +123,10 @@ func (e *ExchangeJSightSchema) processAllOf(uut *StringSet) error {
 // behind regex user types is stateful and would give another value on every call.
 func (e *ExchangeJSightSchema) Example() ([]byte, error) {
 	e.onceExample.Do(func() {
-		e.example, e.exampleErr = e.JSchema.Example()
+		var b []byte
+		b, e.exampleErr = e.JSchema.Example()
+		// The generator returns a slice of a reusable buffer: keep a copy.
+		e.example = append([]byte(nil), b...)
 	})
 	return e.example, e.exampleErr
 }
